@@ -160,10 +160,16 @@ def split_tuple_assignments(tree):
                 if safe:
                     n[0] += 1
                     for t, v in zip(ts, vs):
+                        if isinstance(v, ast.Name) and v.id == t.id:
+                            continue          # `x = x`
                         out.append(ast.copy_location(ast.Assign(targets=[t], value=v), s))
+                    if not out or out[-1] is None:
+                        out.append(ast.copy_location(ast.Pass(), s))
                     continue
+            if isinstance(s, ast.Assign) and len(s.targets) == 1 and isinstance(s.targets[0], ast.Name) and isinstance(s.value, ast.Name) and s.value.id == s.targets[0].id:
+                continue                      # `x = x` left behind by inlining
             out.append(s)
-        return out
+        return out or [ast.Pass()]
     for node in ast.walk(tree):
         if isinstance(node, (ast.FunctionDef, ast.AsyncFunctionDef)):
             node.body = rec(node.body)
